@@ -23,30 +23,45 @@ pub const MESH_GRID_PROPERTIES_OUTPUT_NAME: &str = "mesh_grid_properties";
 
 /// List of names we want to avoid in the generated code
 pub const RESERVED_NAMES: &[&str] = &[
+    "alignas",
+    "alignof",
     "and",
+    "and_eq",
     "as_type",
+    "asm",
     "auto",
+    "bitand",
+    "bitor",
+    "bool",
     "break",
     "case",
     "catch",
     "char",
+    "char16_t",
+    "char32_t",
     "class",
+    "compl",
     "const",
     "const_cast",
+    "constant",
     "constexpr",
     "continue",
     "decltype",
     "default",
     "delete",
+    "device",
     "do",
+    "double",
     "dynamic_cast",
     "else",
     "enum",
     "explicit",
+    "export",
     "extern",
     "false",
     "float",
     "float16_t",
+    "for",
     "friend",
     "goto",
     "half",
@@ -59,26 +74,38 @@ pub const RESERVED_NAMES: &[&str] = &[
     "mutable",
     "namespace",
     "new",
+    "noexcept",
+    "not",
+    "not_eq",
+    "nullptr",
     "operator",
     "or",
+    "or_eq",
     "private",
     "protected",
     "public",
+    "register",
     "reinterpret_cast",
     "return",
     "short",
     "signed",
     "sizeof",
     "static",
+    "static_assert",
     "static_cast",
     "struct",
     "switch",
     "template",
     "this",
+    "thread",
+    "thread_local",
+    "threadgroup",
+    "threadgroup_imageblock",
     "throw",
     "true",
     "try",
     "typedef",
+    "typeid",
     "typename",
     "uint",
     "uint64_t",
@@ -88,7 +115,10 @@ pub const RESERVED_NAMES: &[&str] = &[
     "virtual",
     "void",
     "volatile",
+    "wchar_t",
     "while",
+    "xor",
+    "xor_eq",
     // Keywords to mark entry points (although modern code uses attributes these still exist)
     "kernel",
     "vertex",
